@@ -1,6 +1,6 @@
 /* PSocket driver (C09 data integrity under retries, C10 modes and life-cycle).
  * usage: drv_sock <script> <trace>
- * script: new H fam(4|6) tcp|udp | bind H | listen H | connect H L | connectdead H | accept A L | send H n | recv H buflen
+ * script: new H fam(4|6) tcp|udp | bind H | listen H | connect H L | reconnect H L|0 | connectdead H | accept A L | send H n | recv H buflen
  *         sendto H H2 id len | recvfrom H buflen | set H blocking|timeout|keepalive|backlog v | shutdown H r w
  *         close H | free H | getters H | plan call:outcome[,call:outcome..] | bg <op ..> | join | sleepms n | scenario
  * Every API call is a scall event and an sret event (with result, error code, elapsed time, the system calls it made,
@@ -121,6 +121,11 @@ static void run_cmd (const Cmd *cm) {
 		PSocketAddress *a = loop_addr (sfam[h], sport[cm->a]), *la;
 		ok = p_socket_connect (sk[h], a, &err); p_socket_address_free (a);
 		if (!p_socket_is_closed (sk[h]) && (la = p_socket_get_local_address (sk[h], NULL)) != NULL) { sport[h] = p_socket_address_get_port (la); p_socket_address_free (la); }
+	} else if (!strcmp (op, "reconnect")) {        /* connect called on a socket that is connected already (L = 0: an address of the other family, which cannot succeed) */
+		PSocketAddress *a = cm->a ? loop_addr (sfam[h], sport[cm->a]) : loop_addr (sfam[h] == 6 ? 4 : 6, 9); struct sockaddr_storage peer; socklen_t pl = sizeof peer;
+		ok = p_socket_connect (sk[h], a, &err); p_socket_address_free (a);
+		in_api = 0;
+		osconn = (!p_socket_is_closed (sk[h]) && getpeername (p_socket_get_fd (sk[h]), (struct sockaddr *) &peer, &pl) == 0) ? 1 : 0;   /* what the OS says */
 	} else if (!strcmp (op, "connectfull")) {      /* a listener whose accept queue was filled by "fill": the attempt cannot complete */
 		PSocketAddress *a = loop_addr (sfam[h], sport[cm->a]); struct sockaddr_storage peer; socklen_t pl = sizeof peer;
 		ok = p_socket_connect (sk[h], a, &err); p_socket_address_free (a);
@@ -144,7 +149,11 @@ static void run_cmd (const Cmd *cm) {
 		int n = cm->a, i; char *buf = malloc (n ? n : 1);
 		off = tx_off[h];
 		for (i = 0; i < n; i++) buf[i] = (char) fbyte (off + i);
-		res = (long) p_socket_send (sk[h], buf, (psize) n, &err); ok = res >= 0;
+		if (cm->b == 1) {       /* the same bytes through p_socket_send_to (the address is ignored on a connected stream socket) */
+			PSocketAddress *a = loop_addr (sfam[h], 9);
+			res = (long) p_socket_send_to (sk[h], a, buf, (psize) n, &err); p_socket_address_free (a);
+		} else res = (long) p_socket_send (sk[h], buf, (psize) n, &err);
+		ok = res >= 0;
 		if (res > 0) tx_off[h] += res;
 		free (buf);
 	} else if (!strcmp (op, "recv")) {
